@@ -140,6 +140,24 @@ pub fn check_value(v: &sonic_rs::Value, m: &J, what: &str) -> Result<(), Violati
             return Err(mismatch(what, "as_ref()", format!("ValueRef::{} (or its content / length)", kind), m.canon()));
         }
     }
+    // equality with plain Rust values, both ways round
+    let eq_ok = match m {
+        J::Null => !(*v == false) && !(*v == "") && !(*v == 0u64) && !(0i64 == *v),
+        J::Bool(b) => *v == *b && *b == *v && !(*v == !*b) && !(*v == "true") && !(*v == 1u64),
+        J::Str(ms) => {
+            let longer = format!("{}x", ms);
+            *v == ms.as_str() && ms.as_str() == *v && *v == *ms && *ms == *v && v == ms.as_str() && !(*v == longer) && !(*v == longer.as_str()) && !(*v == 0u64) && !(*v == false)
+        }
+        J::Num(lit) => {
+            let u = expected_u64(lit).map(|n| *v == n && n == *v && !(*v == n.wrapping_add(1))).unwrap_or(!(*v == 0u64));
+            let i = expected_i64(lit).map(|n| *v == n && n == *v && !(*v == n.wrapping_sub(1))).unwrap_or(true);
+            u && i && !(*v == "0") && !(*v == true)
+        }
+        J::Arr(_) | J::Obj(_) => !(*v == "") && !(*v == 0u64) && !(*v == false),
+    };
+    if !eq_ok {
+        return Err(mismatch(what, "PartialEq with a plain value", "wrong".into(), m.canon()));
+    }
     match m {
         J::Arr(a) => {
             let arr = v.as_array().ok_or_else(|| mismatch(what, "as_array", "None".into(), "Some".into()))?;
